@@ -23,7 +23,7 @@ ASSUMPTIONS = ['ground truth = the generator spec (never derived from the built 
                'a parameter has either limit parameters or a check hook, not both (a custom check replaces the automatic limit check by design)',
                'requests are sent one per connection so that driver events can be attributed to a request']
 REQUIRED = ['nodes', 'requests', 'expect_refused', 'expect_accepted', 'driver_calls_checked', 'limit_moves', 'refused_by_limit',
-            'do_requests', 'snapshots_compared', 'limit_race_runs', 'limit_race_writer_met_the_lock']
+            'do_requests', 'snapshots_compared', 'limit_race_runs', 'limit_race_writer_met_the_lock', 'struct_race_runs']
 
 N = {'quick': 60, 'thorough': 3000}
 BADVALUE = {'WrongType', 'RangeError', 'BadValue'}
@@ -585,6 +585,95 @@ def run_limit_race(w, r, rng):
         r.sample({'limit race': limname, 'old': old, 'new': new, 'probe': probe, 'reply': replies[0][:60], 'driver_calls': len(writes)})
 
 
+def run_struct_race(w, r, rng):
+    """'a partial struct merged into the CURRENT value': two connections send partial changes of the same struct
+    parameter; the second arrives while the driver is still busy with the first.  Every driver call must receive the
+    value cached at that moment with the members of its own request replaced."""
+    import threading
+    import frappy.core as C
+    members = rng.sample(['a', 'b', 'c', 'd'], rng.choice([2, 3]))
+    start = {k: rng.randint(0, 9) for k in members}
+    k1, k2 = rng.sample(members, 2)
+    p1, p2 = {k1: rng.randint(10, 19)}, {k2: rng.randint(20, 29)}
+    inside, go, waiting = threading.Event(), threading.Event(), threading.Event()
+    calls = []
+
+    def write_cfg(self, v):
+        calls.append((dict(v), dict(self.cfg)))
+        if len(calls) == 1:
+            inside.set()
+            go.wait(10)
+        return v
+    ns = {'__module__': __name__, 'write_cfg': write_cfg,
+          'cfg': C.Parameter('cfg', C.StructOf(**{k: C.IntRange(0, 100) for k in members}), readonly=False, default=start)}
+    cls = type('StructRaceMod', (C.Module,), ns)
+    node = w.nodes.Node({'m': {'cls': cls, 'description': 'x'}}).build()
+    mod = node.secnode.modules['m']
+    real_lock = mod.accessLock
+    second = []
+
+    class LockProxy:
+        def __enter__(self_):
+            if second and threading.get_ident() == second[0]:
+                waiting.set()
+            return real_lock.__enter__()
+
+        def __exit__(self_, *a):
+            return real_lock.__exit__(*a)
+
+        def acquire(self_, *a, **k):
+            return real_lock.acquire(*a, **k)
+
+        def release(self_):
+            return real_lock.release()
+    mod.accessLock = LockProxy()
+    server = type('Srv', (), {})()
+    server.dispatcher, server.log, server.detailed_errors = node.dispatcher, w.env.Log('iface'), False
+    outs = {}
+
+    def client(idx, payload):
+        if idx == 2:
+            second.append(threading.get_ident())
+        fs = FakeSock(f'change m:_cfg {json.dumps(payload)}\n'.encode())
+        try:
+            w.Handler(fs, ('127.0.0.1', 7 + idx), server)
+        except Exception as e:
+            outs[f'error{idx}'] = repr(e)
+        outs[idx] = b''.join(fs.out).decode('utf-8').split('\n')[:-1]
+    t1 = threading.Thread(target=client, args=(1, p1))
+    t1.start()
+    if not inside.wait(10):
+        r.inconclusive.append('struct race: first request never reached the driver')
+        go.set()
+        return
+    t2 = threading.Thread(target=client, args=(2, p2))
+    t2.start()
+    if waiting.wait(0.05):
+        r.count('struct_race_second_request_met_the_access_lock')
+    go.set()
+    t1.join(10)
+    t2.join(10)
+    if t1.is_alive() or t2.is_alive():
+        r.inconclusive.append('struct race: threads did not finish')
+        return
+    r.count('struct_race_runs')
+    case = {'kind': 'struct-race', 'start': start, 'requests': [p1, p2]}
+    r.case(('struct-race', len(members)), True)
+    if 'error1' in outs or 'error2' in outs or len(calls) != 2:
+        r.violation('C04/struct-race/raises-or-call-count', f'{outs} calls={calls}'[:300], case)
+        return
+    for (v, cached), payload in zip(calls, (p1, p2)):
+        r.count('driver_calls_checked')
+        want = dict(cached, **payload)
+        if v != want:
+            r.violation('C04/struct-race/partial-struct-merged-into-stale-value',
+                        f'driver got {v} for the request {payload} while the cache held {cached} (expected {want})', dict(case, calls=[list(c) for c in calls]))
+            return
+    final = dict(mod.cfg)
+    if final != dict(start, **p1, **p2):
+        r.violation('C04/struct-race/acknowledged-change-lost', f'after both acknowledged changes the parameter is {final}', case)
+
+
 def run_shard(shard):
     r = rec.Recorder(shard)
     rng = random.Random(f'C04/{shard["seed"]}/{shard["idx"]}')
@@ -593,6 +682,7 @@ def run_shard(shard):
         w.run_node(i)
     for i in range(shard.get('nrace', 12)):
         run_limit_race(w, r, rng)
+        run_struct_race(w, r, rng)
     return r.result()
 
 
